@@ -190,8 +190,12 @@ Definition batch_get (fuel : nat) (ev : nat -> bg_event) (L0 : layout) (w : worl
 (* ---------------------------------------------------------------- (d) snapshot cache *)
 Definition maxts : N := 18446744073709551615.
 Record snap := mkSnap { version : N; cached : option (list (key * value)) }.   (* value [] = not exist *)
-Inductive cop := CGet (k : key) | CBatchGet (ks : list key) | CSetTS (ts : N).
-Inductive cres := RGet (o : option value) | RBatch (l : list (key * option value)) | RUnit.
+(* CGetErr / CBatchErr: the call fails (an RPC returns a non-retryable error: cancelled, aborted, back-off
+   exhausted); [got] are the keys whose region had already answered.  Get and BatchGetWithTier return
+   the error before UpdateSnapshotCache: a failed call caches nothing, not even what it did read. *)
+Inductive cop := CGet (k : key) | CBatchGet (ks : list key) | CSetTS (ts : N)
+               | CGetErr (k : key) | CBatchErr (ks got : list key).
+Inductive cres := RGet (o : option value) | RBatch (l : list (key * option value)) | RUnit | RErr.
 
 Definition norm (o : option value) : option value := match o with Some [] => None | x => x end.
 Definition val_of (o : option value) : value := match o with Some v => v | None => [] end.
@@ -229,6 +233,8 @@ Section Cache.
     | CGet k => let '(r, s') := c_get s k in (RGet r, s')
     | CBatchGet ks => let '(r, s') := c_batch s ks in (RBatch r, s')
     | CSetTS ts => (RUnit, mkSnap ts None)
+    | CGetErr _ => (RErr, s)
+    | CBatchErr _ _ => (RErr, s)
     end.
 
   Fixpoint c_run (s : snap) (ops : list cop) : list cres :=
@@ -240,6 +246,8 @@ Section Cache.
     | CGet k => (RGet (norm (rd ver k)), ver)
     | CBatchGet ks => (RBatch (map (fun k => (k, norm (rd ver k))) ks), ver)
     | CSetTS ts => (RUnit, ts)
+    | CGetErr _ => (RErr, ver)
+    | CBatchErr _ _ => (RErr, ver)
     end.
   Fixpoint u_run (ver : N) (ops : list cop) : list cres :=
     match ops with [] => [] | o :: r => let '(x, v') := u_step ver o in x :: u_run v' r end.
